@@ -396,8 +396,16 @@ def clause_d(c: Check):
             ok = unparse(call.args[1]) == rf.positional_params()[0].arg
     c.expect(ok, 'C17-d', 'resolve_handling_setup_from_suite_file/plumbing',
              'the standalone route does not resolve the suite with the default handling setup it was given', rf.loc())
-    # decision table of the suite file selection
     hs = ix.func(AR + ':AccessorResolver._handling_setup')
+    # the default suite file is the one beside the case file AS NAMED (no resolution of links on the way)
+    if nested_for_default(hs) is not None:
+        nf_ = nested_for_default(hs)
+        for r in util.returned_values(nf_):
+            bad = _resolved_somewhere(ix, nf_, r, 0)
+            c.expect(bad is None, 'C17-d', 'standalone/default-suite-beside-the-file-named',
+                     'the default suite file of a standalone run is looked for at a path that is %s: for a case reached '
+                     'through a symbolic link the `exactly.suite` beside the link is not found' % bad, nf_.loc())
+    # decision table of the suite file selection
     nested = None
     for kind, *rest in hs.local_bindings().get('get_suite_file', []):
         if kind == 'def':
@@ -533,6 +541,13 @@ def _resolves(ix, d: FuncDef, depth: int) -> bool:
                 if isinstance(cd, External) and cd.dotted == 'os.path.realpath':
                     return True
     return False
+
+
+def nested_for_default(hs: FuncDef):
+    for kind, *rest in hs.local_bindings().get('get_suite_file', []):
+        if kind == 'def':
+            return rest[0]
+    return None
 
 
 def _mentions_default(v) -> bool:
